@@ -22,6 +22,8 @@ pub struct C01 {
     /// Fixed haystacks (used by C12); None = relevant-alphabet enumeration.
     pub universe: Option<Vec<String>>,
     pub only_start_zero: bool,
+    /// C12: a membership question is non-trivial iff the answer is "member".
+    pub nontrivial_iff_matched: bool,
 }
 
 pub struct C01Prep {
@@ -110,6 +112,9 @@ impl PCheck for C01 {
                 if g != expected {
                     return Verdict::Violated { property: self.property, what: "first match differs from the ECMAScript reference model".into(), observed: show_opt(&g), expected: show_opt(&expected) };
                 }
+                if self.nontrivial_iff_matched {
+                    return Verdict::Held { nontrivial: expected.is_some() };
+                }
                 Verdict::Held { nontrivial: p.pat.features.nontrivial() && (expected.is_some() || st.steps > 8) }
             }
             Guarded::Fuel => Verdict::Inconclusive("engine_fuel"),
@@ -127,6 +132,6 @@ pub fn run(cfg: &Cfg, rep: &mut Report) {
         tweak,
         fixed: super::diff::fixed_corpus(), templates: true };
     let opts = DriveOpts { budget: if cfg.quick() { 120 } else { 350 }, n_long: 2, n_plant: 2, ascii_only: false, sample_every: 299 };
-    let c = C01 { limits: RefLimits { max_steps: 300_000, max_depth: 20_000 }, property: "C01", name: "c01", universe: None, only_start_zero: false };
+    let c = C01 { limits: RefLimits { max_steps: 300_000, max_depth: 20_000 }, property: "C01", name: "c01", universe: None, only_start_zero: false, nontrivial_iff_matched: false };
     drive(&c, cfg, rep, &spec, &opts);
 }
